@@ -130,9 +130,9 @@ type hop struct {
 
 func (o hop) Sexp() string {
 	switch o.kind {
-	case "get", "elem", "rootwrite", "repoint", "summ":
+	case "get", "elem", "rootwrite", "repoint", "summ", "htrpanic2":
 		return fmt.Sprintf("(%s %d %s)", o.kind, o.h, hx(o.i))
-	case "uvalue", "copy", "pop", "htr", "ser", "blen", "len", "sel", "snap", "count", "iter", "next", "rebuild":
+	case "uvalue", "copy", "pop", "htr", "ser", "blen", "len", "sel", "snap", "count", "iter", "next", "rebuild", "rebuildf", "htrpanic":
 		return fmt.Sprintf("(%s %d)", o.kind, o.h)
 	case "memo":
 		return "(memo)"
@@ -228,6 +228,49 @@ func (s *hstate) exec(o hop) string {
 				return "ERR"
 			}
 			return errObs(vw.SetBacking(s.views[o.i].Backing()))
+		case "htrpanic":
+			// a root request that does not complete: the caller's hash function fails (panics)
+			// at its k-th call and the caller recovers.  Nothing is remembered that is not a
+			// root of children (checked by the memo walks that follow).
+			k := 1 + int(o.i%7)
+			func() {
+				defer func() { _ = recover() }()
+				calls := 0
+				vw.HashTreeRoot(func(a, b tree.Root) tree.Root {
+					if calls++; calls == k {
+						panic("hash function failed")
+					}
+					return s.h(a, b)
+				})
+			}()
+			return "OK"
+		case "rebuildf":
+			// like rebuild, but some inner pairs become nodes of a caller-defined type (which
+			// embeds a pair): remembered roots are kept all the same
+			bb := backedBase(vw)
+			if bb == nil || bb.Hook != nil || !isComposite(t) {
+				return "ERR"
+			}
+			done := map[*tree.PairNode]tree.Node{}
+			cnt := 0
+			var rb func(n tree.Node, depth int) tree.Node
+			rb = func(n tree.Node, depth int) tree.Node {
+				p, ok := n.(*tree.PairNode)
+				if !ok {
+					return n
+				}
+				if q, ok := done[p]; ok {
+					return q
+				}
+				q := &tree.PairNode{LeftChild: rb(p.LeftChild, depth+1), RightChild: rb(p.RightChild, depth+1), Value: p.Value}
+				var res tree.Node = q
+				if cnt++; depth >= 2 && cnt%3 == 0 {
+					res = foreignPair{q}
+				}
+				done[p] = res
+				return res
+			}
+			return errObs(vw.SetBacking(rb(vw.Backing(), 0)))
 		case "rebuild":
 			// what a snapshot loader does: the tree is rebuilt node by node from PairNode
 			// literals that carry the remembered roots over (exported field Value), sharing kept;
@@ -860,6 +903,10 @@ func (hg *histGen) next(s *hstate) hop {
 		return hop{kind: "htr", h: 0}
 	case c < 70:
 		if hg.memos {
+			if r.Intn(3) == 0 {
+				hg.pending = append(hg.pending, hop{kind: "memo"})
+				return hop{kind: "htrpanic", h: h, i: uint64(r.Intn(7))}
+			}
 			return hop{kind: "memo"}
 		}
 		return hop{kind: "ser", h: 0}
